@@ -10,6 +10,7 @@ import PyaModel.Generated.FixConsts
 4. The add-ignores round in closed form, its invariants, termination.
 5. `get_line_range_for_node`.
 6. The line lexer.
+7. `NodeTransformer.generic_visit`: identity copy, exact replacement.
 -/
 set_option linter.unusedSimpArgs false
 set_option linter.unusedVariables false
@@ -1097,5 +1098,101 @@ theorem safeStart_of_not_D {lines : List Line} {p : Nat} (h1 : insideStringAt li
   | single q d => rw [h] at h1; simp at h1
   | triple q d => rw [h] at h1; simp at h1
 
+/-! ## 7. `NodeTransformer.generic_visit` -/
+
+mutual
+  theorem visit_noHook : ∀ t : Tree, visit noHook t = .tree t
+    | .mk k i fs => by
+      have := copyFields_noHook fs
+      simp only [visit, noHook, this]
+  theorem copyFields_noHook : ∀ fs : FieldList, copyFields noHook fs = fs
+    | .nil => rfl
+    | .cons n f rest => by
+      simp only [copyFields, copyField_noHook f, copyFields_noHook rest]
+  theorem copyField_noHook : ∀ f : Field, copyField noHook f = f
+    | .leaf v => rfl
+    | .child t => by simp only [copyField, visit_noHook t]
+    | .many items => by simp only [copyField, copyItems_noHook items]
+  theorem copyItems_noHook : ∀ items : ItemList, copyItems noHook items = items
+    | .nil => rfl
+    | .cons .none rest => by simp only [copyItems, copyItems_noHook rest]
+    | .cons (.val v) rest => by simp only [copyItems, copyItems_noHook rest]
+    | .cons (.tree t) rest => by simp only [copyItems, visit_noHook t, copyItems_noHook rest]
+end
+
+mutual
+  theorem visit_replace (target : Nat) (r : Tree) : ∀ t : Tree,
+      visit (replaceHook target r) t = .tree (substTree target r t)
+    | .mk k i fs => by
+      by_cases h : (i == target) = true
+      · simp [visit, replaceHook, Tree.id, substTree, h]
+      · have := copyFields_replace target r fs
+        simp [visit, replaceHook, Tree.id, substTree, h, this]
+  theorem copyFields_replace (target : Nat) (r : Tree) : ∀ fs : FieldList,
+      copyFields (replaceHook target r) fs = substFields target r fs
+    | .nil => rfl
+    | .cons n f rest => by
+      simp only [copyFields, substFields, copyField_replace target r f, copyFields_replace target r rest]
+  theorem copyField_replace (target : Nat) (r : Tree) : ∀ f : Field,
+      copyField (replaceHook target r) f = substField target r f
+    | .leaf v => rfl
+    | .child t => by simp only [copyField, substField, visit_replace target r t]
+    | .many items => by simp only [copyField, substField, copyItems_replace target r items]
+  theorem copyItems_replace (target : Nat) (r : Tree) : ∀ items : ItemList,
+      copyItems (replaceHook target r) items = substItems target r items
+    | .nil => rfl
+    | .cons .none rest => by simp only [copyItems, substItems, copyItems_replace target r rest]
+    | .cons (.val v) rest => by simp only [copyItems, substItems, copyItems_replace target r rest]
+    | .cons (.tree t) rest => by
+      simp only [copyItems, substItems, visit_replace target r t, copyItems_replace target r rest]
+end
+
+mutual
+  theorem substTree_absent (target : Nat) (r : Tree) : ∀ t : Tree, occursTree target t = false → substTree target r t = t
+    | .mk k i fs => by
+      intro h
+      simp only [occursTree, Bool.or_eq_false_iff] at h
+      simp [substTree, h.1, substFields_absent target r fs h.2]
+  theorem substFields_absent (target : Nat) (r : Tree) : ∀ fs : FieldList,
+      occursFields target fs = false → substFields target r fs = fs
+    | .nil => fun _ => rfl
+    | .cons n f rest => by
+      intro h
+      simp only [occursFields, Bool.or_eq_false_iff] at h
+      simp only [substFields, substField_absent target r f h.1, substFields_absent target r rest h.2]
+  theorem substField_absent (target : Nat) (r : Tree) : ∀ f : Field,
+      occursField target f = false → substField target r f = f
+    | .leaf v => fun _ => rfl
+    | .child t => by
+      intro h
+      simp only [occursField] at h
+      simp only [substField, substTree_absent target r t h]
+    | .many items => by
+      intro h
+      simp only [occursField] at h
+      simp only [substField, substItems_absent target r items h]
+  theorem substItems_absent (target : Nat) (r : Tree) : ∀ items : ItemList,
+      occursItems target items = false → substItems target r items = items
+    | .nil => fun _ => rfl
+    | .cons .none rest => by
+      intro h
+      simp only [occursItems] at h
+      simp only [substItems, substItems_absent target r rest h]
+    | .cons (.val v) rest => by
+      intro h
+      simp only [occursItems] at h
+      simp only [substItems, substItems_absent target r rest h]
+    | .cons (.tree t) rest => by
+      intro h
+      simp only [occursItems, Bool.or_eq_false_iff] at h
+      simp only [substItems, substTree_absent target r t h.1, substItems_absent target r rest h.2]
+end
+
+theorem noneMask_subst (target : Nat) (r : Tree) : ∀ items : ItemList,
+    noneMask (substItems target r items) = noneMask items
+  | .nil => rfl
+  | .cons .none rest => by simp only [substItems, noneMask, noneMask_subst target r rest]
+  | .cons (.val v) rest => by simp only [substItems, noneMask, noneMask_subst target r rest]
+  | .cons (.tree t) rest => by simp only [substItems, noneMask, noneMask_subst target r rest]
 
 end Pya.C16
